@@ -9,8 +9,9 @@ import subprocess
 import sys
 
 SEEDED = "/verif/seeded"
-VERIF = "/verif"
-BASE = "cd /repo && /venv/bin/python -m pytest -q -p no:cacheprovider --timeout=900 --continue-on-collection-errors -n 8 2>&1 | tail -1"
+VERIF = os.environ.get("VERIF_HOME", "/verif")
+REPO = os.environ.get("VERIF_REPO", "/repo")
+BASE = "cd " + REPO + " && /venv/bin/python -m pytest -q -p no:cacheprovider --timeout=900 --continue-on-collection-errors -n 8 2>&1 | tail -1"
 
 
 def sh(cmd, timeout=3600):
@@ -29,22 +30,22 @@ def do_import(wt, name):
 def do_eval(name, checks):
     d = os.path.join(SEEDED, name)
     meta = json.load(open(os.path.join(d, "meta.json")))
-    rc, out = sh("git -C /repo status --porcelain")
+    rc, out = sh("git -C %s status --porcelain" % REPO)
     if out.strip():
-        sys.exit("/repo is not clean: " + out)
+        sys.exit(REPO + " is not clean: " + out)
     res = {}
     # evidence written while a seeded change is applied must not replace the evidence of the unchanged tree
     keep = {}
     for c in checks:
         ep = os.path.join(VERIF, "evidence", c + ".json")
         keep[ep] = open(ep).read() if os.path.exists(ep) else None
-    rc, out = sh("cd /repo && PYTHONPATH=/repo /venv/bin/python %s/demo.py" % d)
+    rc, out = sh("cd %s && PYTHONPATH=%s /venv/bin/python %s/demo.py" % (REPO, REPO, d))
     res["demo_without_patch_rc"] = rc
-    rc, out = sh("git -C /repo apply %s/patch.diff" % d)
+    rc, out = sh("git -C %s apply %s/patch.diff" % (REPO, d))
     if rc:
         sys.exit("patch does not apply: " + out)
     try:
-        rc, out = sh("cd /repo && PYTHONPATH=/repo /venv/bin/python %s/demo.py" % d)
+        rc, out = sh("cd %s && PYTHONPATH=%s /venv/bin/python %s/demo.py" % (REPO, REPO, d))
         res["demo_with_patch_rc"] = rc
         if os.environ.get("SEEDED_NOTESTS") and "evaluation" in meta:
             res["tests_with_patch"] = meta["evaluation"].get("tests_with_patch")
@@ -53,13 +54,13 @@ def do_eval(name, checks):
             res["tests_with_patch"] = out.strip()
         det = {}
         for c in checks:
-            rc, out = sh("cd /verif && ./check %s --tier quick" % c, timeout=3600)
+            rc, out = sh("cd %s && ./check %s --tier quick" % (VERIF, c), timeout=3600)
             lines = [l for l in out.splitlines() if l.startswith("VIOLATION")]
             det[c] = dict(rc=rc, violations=lines[:6])
             print(c, "rc=%d" % rc, *lines[:3], sep="\n   ")
         res["checks"] = det
     finally:
-        sh("git -C /repo checkout -- .")
+        sh("git -C %s checkout -- ." % REPO)
         for ep, txt in keep.items():
             if txt is None:
                 if os.path.exists(ep):
